@@ -653,8 +653,8 @@ func init() {
 			}
 			return 320
 		},
-		ChunkSize: 10,
-		Rule:      "inputs come from four generators, each used as handshake reply and as post-handshake stream against clients with 0-3 at-least-once and 0-3 exactly-once transfers outstanding plus optional pending Subscribe, Unsubscribe and Ping: (directed) 47 hand-listed offences, one per violation the statement names, placed after a valid prefix of 0-6 packets; (mutation) every single-field mutation of a generated valid stream: each byte of each fixed header set to 0, +-1, 0xff, high bit flipped, identifiers set to zero, foreign space and neighbour, truncation at every byte (broker then stays silent); (soup) PRNG bytes and valid packets in PRNG order; (handshake) all 256 return codes and flag bytes, truncated and foreign first packets. A reference classifier written from the specification (over the model of what is outstanding) gives the first offending packet; gray-zone inputs (reserved flag bits on non-PUBLISH packets, topic contents, DUP on QoS 0) get only the unconditional monitors. Oracle: no panic (child-process monitor); packets before the offence take effect (returned messages, completed transfers equal the reference); at the offence ReadSlices errs, the connection is closed by the client and the next ReadSlices dials again; completions and record deletions need their in-order acknowledgement bytes in the input; a Read that blocks inside a packet must have a deadline armed (the connection expires it instead of waiting); bytes allocated stay below the largest announced packet + 8 MiB. Non-trivial: input with an offence reached by the parser; distinct by (generator, offence kind, outstanding state, handshake or stream).",
+		ChunkSize:   10,
+		Rule:        "inputs come from four generators, each used as handshake reply and as post-handshake stream against clients with 0-3 at-least-once and 0-3 exactly-once transfers outstanding plus optional pending Subscribe, Unsubscribe and Ping: (directed) 47 hand-listed offences, one per violation the statement names, placed after a valid prefix of 0-6 packets; (mutation) every single-field mutation of a generated valid stream: each byte of each fixed header set to 0, +-1, 0xff, high bit flipped, identifiers set to zero, foreign space and neighbour, truncation at every byte (broker then stays silent); (soup) PRNG bytes and valid packets in PRNG order; (handshake) all 256 return codes and flag bytes, truncated and foreign first packets. A reference classifier written from the specification (over the model of what is outstanding) gives the first offending packet; gray-zone inputs (reserved flag bits on non-PUBLISH packets, topic contents, DUP on QoS 0) get only the unconditional monitors. Oracle: no panic (child-process monitor); packets before the offence take effect (returned messages, completed transfers equal the reference); at the offence ReadSlices errs, the connection is closed by the client and the next ReadSlices dials again; completions and record deletions need their in-order acknowledgement bytes in the input; a Read that blocks inside a packet must have a deadline armed (the connection expires it instead of waiting); bytes allocated stay below the largest announced packet + 8 MiB. Non-trivial: input with an offence reached by the parser; distinct by (generator, offence kind, outstanding state, handshake or stream).",
 		Assumptions: []string{"native coverage-guided fuzzing and the asan pass are not part of this check (cut, see DESIGN section 6)", "BigMessage.ReadAll is never called on messages above 1 MiB"},
 		Run: func(c *run.Ctx) {
 			r := c.Rng
